@@ -803,6 +803,14 @@ impl HistogramVec {
     pub fn new(opts: HistogramOpts, label_names: &[&str]) -> Result<HistogramVec> {
         let variable_names = label_names.iter().map(|s| (*s).to_owned()).collect();
         let opts = opts.variable_labels(variable_names);
+        // Refuse the reserved bucket label here, not only when the first
+        // child is built.
+        for name in &opts.common_opts.variable_labels {
+            check_bucket_label(name)?;
+        }
+        for name in opts.common_opts.const_labels.keys() {
+            check_bucket_label(name)?;
+        }
         let metric_vec =
             MetricVec::create(proto::MetricType::HISTOGRAM, HistogramVecBuilder {}, opts)?;
 
